@@ -20,7 +20,7 @@ ID = "C13"
 LEVEL = "model_checking"
 MIN_OUTCOMES = 3
 MANIFEST = {
-    'text': "Complete enumeration of a constructed project table (incl. files that lag behind current_version, files that begin with a UTF-8 BOM, and files with FF/control characters, U+2028, NBSP or decomposed text around the version line) x flag sets x message templates, plus fake-git cases in which a fetch brings newer tags, and every subset of six existing tags around the version about to be created (twins that do not match the pattern, a newer valid tag, junk, a pre-release, the new version itself) x scope x committing on/off: the two-step history (update --dry; update) is executed on the real CLI from the same snapshot; the dry run must not change a byte, and whenever it exits 0 the unified diff it printed - applied by a strict applier that checks file names, line numbers, counts and every context/removed line under the file's own separator - must reproduce exactly the bytes the real run writes, and the real run must exit 0.",
+    'text': "Complete enumeration of a constructed project table (incl. files that lag behind current_version, files that begin with a UTF-8 BOM, files of 6,000 and 2,500 lines with several hunks, a 20,000-character line, and files with FF/control characters, U+2028, NBSP or decomposed text around the version line) x flag sets x message templates, plus fake-git cases in which a fetch brings newer tags, and every subset of six existing tags around the version about to be created (twins that do not match the pattern, a newer valid tag, junk, a pre-release, the new version itself) x scope x committing on/off: the two-step history (update --dry; update) is executed on the real CLI from the same snapshot; the dry run must not change a byte, and whenever it exits 0 the unified diff it printed - applied by a strict applier that checks file names, line numbers, counts and every context/removed line under the file's own separator - must reproduce exactly the bytes the real run writes, and the real run must exit 0.",
     'note': 'mixed line endings are excluded by the property; coloured tty output is not exercised',
     'technique': 'exhaustive enumeration of bounded project x argument space, differential oracle (strict diff applier vs real run) on the real CLI',
 }
@@ -145,6 +145,7 @@ def explore(tier, seed):
     chunks.append(("fetch", tier, 0))
     for scope in ("default", "global", "branch"):
         chunks.append(("tags", tier, scope))
+    chunks.append(("large", tier, 0))
     return pool.run_chunks(run_chunk, chunks)
 
 
@@ -198,6 +199,10 @@ def run_chunk(chunk):
         return st
     if kind == "tags":
         tag_cases(st, idx)
+        os.chdir("/")
+        return st
+    if kind == "large":
+        large_files(st)
         os.chdir("/")
         return st
     if kind == "v2":
@@ -260,6 +265,24 @@ def fetch_cases(st):
                                                            tags_after_fetch=remote_tags))
 
                 dry_then_real(st, tree, seps, flags, case, f"fetch:{scope}", base_flags=(), vcs=vcs)
+
+
+def large_files(st):
+    """Files of several thousand lines with occurrences far apart (several hunks, the first one not at the top), and a very long
+    line: the printed diff must still apply and give what the real run writes."""
+    shapes = {
+        "6000-lines": [("ver=1.2.3; at %d" % i) if i in (40, 41, 2999, 5000, 5990) else "line %d of the changelog" % i for i in range(6000)],
+        "2500-lines-crlf": [("ver=1.2.3; at %d" % i) if i in (7, 1200, 2490) else "entry %d" % i for i in range(2500)],
+        "long-line": ["header", "x" * 9000 + " ver=1.2.3; " + "y" * 9000, "middle", "ver=1.2.3;", "tail"],
+    }
+    for name, lines in shapes.items():
+        sep = "\r\n" if name.endswith("crlf") else "\n"
+        for flags in (["--patch"], ["--minor"], ["--set-version", "1.2.10"]):
+            cfg = ('[bumpver]\ncurrent_version = "1.2.3"\nversion_pattern = "MAJOR.MINOR.PATCH"\n\n[bumpver.file_patterns]\n"big.txt" = ["ver={version};"]\n')
+            tree = {"bumpver.toml": cfg.encode(), "big.txt": (sep.join(lines) + sep).encode()}
+            seps = {"bumpver.toml": "\n", "big.txt": sep}
+            case = {"large_file": name, "flags": flags}
+            dry_then_real(st, tree, seps, flags, case, f"large-file:{name}")
 
 
 STRAY_TAGS = ["1.3.0", "v1.3", "v1.2.10", "release-1", "v1.3.0rc1", "v1.3.0"]
@@ -360,6 +383,9 @@ def replay(case, st):
                 return
             if case.get("tag_case"):
                 tag_cases(st, case["scope"])
+                return
+            if case.get("large_file"):
+                large_files(st)
                 return
             if "legacy" in case:
                 for i, lc in enumerate(c04.legacy_cases()):
